@@ -1,4 +1,4 @@
-REPO_COMMITS = ["0e45a8e", "f51d74e"]
+REPO_COMMITS = ["0e45a8e", "f51d74e", "e08c0a5"]
 NOT_APPLICABLE = {}
 CHECKS = {
  "C05": dict(
@@ -9,4 +9,8 @@ CHECKS = {
   text="Held-on-what-was-observed: wrappers on Binner.dohist / Binner.calc_stats / stat.histogram(more, weights, nperbin) recompute every reported per-bin quantity directly from the members the independent C05 reference assigns to each bin (edges, centre, mean, population deviation, median, standard error, weighted count/mean/deviation/both errors, for x and the optional second variable) and the equal-occupancy layout (chunks of the stable-sorted data, merge of a short last bin, low/high, reverse indices in the original frame).",
   note="Trusts numpy mean/std/median/stable argsort. Single-member bins: standard error and weighted errors unconstrained; bins with zero total weight unconstrained; edge-rounding calls skipped.",
   technique="API-boundary monitor with direct recomputation oracle over seeded forced-occupancy workloads; ASan+UBSan replay"),
+ "C18": dict(
+  text="Held-on-what-was-observed: wrappers on wmom, wmedian, sigma_clip, interplin, get_stats, cov2cor and cor2cov judge every observed call by direct long-double recomputation; sigma clipping by re-running the stated strict-threshold iteration, including a dyadic family whose data sit exactly on the threshold (exactness established with rationals) so that < versus <= is decidable.",
+  note="Trusts numpy long double arithmetic and searchsorted. Clipping and weighted-median cases within rounding of their decision threshold are skipped and counted.",
+  technique="API-boundary monitor with direct-definition oracle; executable model of the clipping iteration"),
 }
